@@ -114,6 +114,10 @@ class Bus {
   Port port;
   std::deque<BusItem> items;
   std::deque<React> reacts;
+  // L3: the heating system model supplies the slave data (unescaped NN D..) for a request of ebusd; empty = default
+  std::function<Bytes(const Bytes& master)> slaveResponder;
+  // called when the addressed participant has reacted to a complete master part of ebusd
+  std::function<void(const Bytes& master, const Bytes& slave, bool answered)> onExchange;
   void start();                          // arms the SYN generator
   void transmit(int who, uint8_t b, uint64_t item);
   bool busy() const { return m_busy; }
